@@ -47,8 +47,8 @@ CHECKS = {
  'C15': dict(technique='explicit TLA+ specification of MDDs (MDD.tla: semantics, contracts, transcription of find_or_add/ite/collect_garbage) model-checked with TLC (MC_MDD) and used by TLC to validate recorded dd.mdd executions and bdd_to_mdd conversions (TraceMDD.tla)',
    text='MC_MDD explores the transcribed MDD algorithms (ternary + binary variable): canonical form (first edge regular), equal functions <=> equal references, exact counts, ite pointwise, collection exact. Seeded MDD histories (find_or_add, ite, all aliases of apply, incref/decref, collect_garbage over 2-3 integer variables of 2-4 values) and seeded bdd_to_mdd conversions (<= 6 bits in 1-3 integer variables, random integer and bit orders, 1-4 referenced functions of either sign) run on the real code; TLC evaluates every returned MDD reference on every integer assignment against the BDD on the encoded bits and checks the BDD functions intact.',
    note=TRUST + 'Plus the adapter for dd.mdd tables. Integer variables have 2^bits values.', design='7 (C15)'),
- 'C16': dict(category='exploration', technique='explicit TLA+ semantics of the abstract DDDMP file (TraceDDDMP.tla: FileDen by direct evaluation of the node list) checked by TLC against the manager returned by dd.dddmp.load',
-   text='Seeded text-mode DDDMP files (1-3 roots of either sign over 1-5 support variables out of up to 8 declared, random children-before-parents numbering, gaps in permutation ids, with/without .orderedvarnames, varinfo 0/1/3) are written by the harness and loaded by the real dd.dddmp.load; TLC evaluates the file\'s node list directly (FileDen) and compares, by variable name, with the denotations of the returned roots computed from the returned manager\'s node table; every file node must be present; manager canonical; relative order kept.',
+ 'C16': dict(technique='explicit TLA+ specification: a transcription of dddmp.load over abstract files model-checked with TLC (CopyLoad.tla, MC_CopyLoad), and TLC judging the manager returned by the real dd.dddmp.load against a direct evaluation of each generated file (TraceDDDMP.tla)',
+   text='MC_CopyLoad model-checks the transcribed loader (gapped levels re-indexed, bottom-up rebuild per level, roots mapped with sign) on abstract files of every reachable source manager under two numberings and two level maps; a negative configuration that hands the root ids over unmapped is refuted. Seeded text-mode DDDMP files (1-3 roots of either sign over 1-5 support variables out of up to 8 declared, random children-before-parents numbering, gaps in permutation ids, with/without .orderedvarnames, varinfo 0/1/3) are written by the harness and loaded by the real dd.dddmp.load; TLC evaluates the file\'s node list directly (FileDen) and compares, by variable name, with the denotations of the returned roots computed from the returned manager\'s node table; every file node must be present; manager canonical; relative order kept.',
    note=TRUST + 'The DDDMP writer is a trusted ~80-line generator; the header grammar/lexer is not modelled (byte-level format is outside the technique).', design='7 (C16)'),
  'C17': dict(technique=TECH,
    text='About 60 kinds of rejected call (undeclared variables, unknown nodes, unknown operator, arity errors, syntax errors with the offending token at every position, bad levels/orders/swaps, undeclare of used/unknown variables, unreadable files, ...) are injected with probability 0.3 at every step of seeded dd.bdd histories, half of them with dynamic reordering on; TLC checks after every raised call that held denotations, canonicity, exact counts, order and flags are intact (exc.*) and that the next successful call satisfies its own contract (exc.next). The decorator protocol incl. a call that raises in the retry is model-checked (MC_Dyn_protected).',
